@@ -180,6 +180,8 @@ impl<'a> Sim<'a> {
             let mut w = wire.0.borrow_mut();
             w.read_policy = ReadPolicy::PartitionDev;
             w.cut_set = Some(BTreeSet::new());
+            // a write may find the transport not ready once (deviation), then goes through
+            w.write_pend_dev = true;
         }
         self.listener.connect(wire.clone());
         self.conns.push(ConnM {
@@ -818,7 +820,7 @@ fn run_plan(prop: &str, tier: Tier, rule: &str, assumptions: Vec<String>, goals:
     rep.finish()
 }
 
-const RULE: &str = "DFS by re-execution over event histories of a real Server::run() on a scripted listener: at each step the next event is a free choice among all enabled ones (a client connects; a burst from the alphabet arrives on a connection - whole, or cut at one of {1, middle, end-1, around the first frame boundary} with the rest arriving as a later event; a stream produces its next item / ends; a client closes; a fault strikes), bounded by connections, total calls and events; deviations: a cut, a short read (a transport read ending at/next to a frame boundary although more has arrived), a delayed server poll (the next event happens before the server runs). After every poll-to-quiescence every connection is compared with its sequential reference model; states are (writes, bytes sent, dropped) per connection + service log length";
+const RULE: &str = "DFS by re-execution over event histories of a real Server::run() on a scripted listener: at each step the next event is a free choice among all enabled ones (a client connects; a burst from the alphabet arrives on a connection - whole, or cut at one of {1, middle, end-1, around the first frame boundary} with the rest arriving as a later event; a stream produces its next item / ends; a client closes; a fault strikes), bounded by connections, total calls and events; deviations: a cut, a short read (a transport read ending at/next to a frame boundary although more has arrived), a transport write that is pending once before it goes through, a delayed server poll (the next event happens before the server runs). After every poll-to-quiescence every connection is compared with its sequential reference model; states are (writes, bytes sent, dropped) per connection + service log length";
 
 fn base_assumptions() -> Vec<String> {
     vec![
